@@ -147,7 +147,7 @@ var hostileLists = map[string][]string{
 	"utc":          {"", "ntp", "keep", "keep-ntp", "direct-head", "none", "bogus", "ntp-", "-", "httpxsdate-httpiso-sntp"},
 	"timesubsstpp": {"", "en", "en,sv", ",", "en,,sv", "a/b", "../x", strings.Repeat("x", 300)},
 	"timesubswvtt": {"", "en", "en,sv", ",", "xx"},
-	"statuscode":   {"", "[]", "[{}]", "[{cycle:30,rsq:0,code:404}]", "[{cycle:0,rsq:0,code:404}]", "[{cycle:-5,rsq:0,code:404}]", "[{rsq:0,code:404}]", "[{cycle:30,rsq:-1,code:404}]", "[{cycle:30,rsq:0,code:200}]", "[{cycle:30,rsq:0,code:404,rep:V300}]", "[{cycle:30,rsq:0,code:404,rep:A,B}]", "[{cycle:30;rsq:0}]", "x", "[{cycle:30,rsq:0,code:404},{cycle:1,rsq:9,code:500}]", "[{cycle:abc,rsq:0,code:404}]", "[{cycle:99999999999999999999,rsq:0,code:404}]"},
+	"statuscode":   {"", "[]", "[{}]", "[{cycle:30,rsq:0,code:404}]", "[{cycle:0,rsq:0,code:404}]", "[{cycle:-5,rsq:0,code:404}]", "[{rsq:0,code:404}]", "[{cycle:30,rsq:-1,code:404}]", "[{cycle:30,rsq:0,code:200}]", "[{cycle:30,rsq:0,code:404,rep:V300}]", "[{cycle:30,rsq:0,code:404,rep:A,B}]", "[{cycle:30;rsq:0}]", "x", "[{cycle:30,rsq:0,code:404},{cycle:1,rsq:9,code:500}]", "[{cycle:4,rsq:0,code:410}]", "[{cycle:1,rsq:0,code:404}]", "[{cycle:3,rsq:1,code:503,rep:V300}]", "[{cycle:7,rsq:0,code:404}]", "[{cycle:abc,rsq:0,code:404}]", "[{cycle:99999999999999999999,rsq:0,code:404}]"},
 	"traffic":      {"", "u20d10", "u20d10,u5d5", ",", "u", "d0", "u0d0", "x5", "u20d10,", ",u5", "u-5", "u99999999999999999999", "20u"},
 	"drm":          {"", "foo", "EZDRM-1-key-cbcs-test", "EZDRM-2-keys-cbcs-test", "eccp-cenc", "None"},
 	"eccp":         {"", "cenc", "cbcs", "foo", "CENC"},
@@ -289,12 +289,39 @@ func genLivesim(t *rapid.T) Req {
 	file = strings.ReplaceAll(file, "$N$", rapid.SampledFrom(segNums).Draw(t, "segnum"))
 	if rapid.IntRange(0, 2).Draw(t, "deep") == 0 {
 		// a hostile value is only exercised by the segment code if the request is otherwise servable: known asset, available segment
-		asset = "testpic_2s"
-		file = rapid.SampledFrom([]string{"V300/499.m4s", "A48/499.m4s", "V300/480.m4s", "A48/475.m4s", "V300/499.m4s", "V300/init.mp4", "Manifest.mpd"}).Draw(t, "deepfile")
+		byTime := ""
+		switch rapid.IntRange(0, 3).Draw(t, "deepasset") {
+		case 0: // 6 s segments: 165 is the newest complete one at fixedNow
+			asset = "testpic_6s"
+			file = rapid.SampledFrom([]string{"V300/165.m4s", "A48/165.m4s", "V300/160.m4s", "A48/158.m4s", "V300/init.mp4", "Manifest.mpd"}).Draw(t, "deepfile")
+			byTime = "V300/89100000.m4s"
+		case 1: // one 8 s segment per loop: 124 ends exactly at fixedNow
+			asset = "testpic_8s"
+			file = rapid.SampledFrom([]string{"V300/124.m4s", "A48/124.m4s", "V300/120.m4s", "A48/119.m4s", "V300/init.mp4", "Manifest.mpd"}).Draw(t, "deepfile")
+			byTime = "V300/89280000.m4s"
+		default:
+			asset = "testpic_2s"
+			file = rapid.SampledFrom([]string{"V300/499.m4s", "A48/499.m4s", "V300/480.m4s", "A48/475.m4s", "V300/499.m4s", "V300/init.mp4", "Manifest.mpd"}).Draw(t, "deepfile")
+			byTime = "V300/89820000.m4s" // segment 499 addressed by time
+		}
 		for _, p := range parts {
-			if p == "segtimeline_1" && strings.HasPrefix(file, "V300/4") {
-				file = "V300/89820000.m4s" // segment 499 addressed by time
+			if p == "segtimeline_1" && strings.HasPrefix(file, "V300/1") || p == "segtimeline_1" && strings.HasPrefix(file, "V300/4") {
+				file = byTime
 			}
+		}
+		if rapid.IntRange(0, 2).Draw(t, "young") == 0 {
+			// a stream that started 15 s ago: the first segments of the stream are the servable ones
+			var kept []string
+			for _, p := range parts {
+				if k, _, _ := strings.Cut(p, "_"); k != "start" && k != "startrel" && k != "ast" && k != "snr" {
+					kept = append(kept, p)
+				}
+			}
+			if len(kept) != len(parts) {
+				expect = "" // the hostile value may have been among the replaced parts
+			}
+			parts = append(kept, "start_985")
+			file = rapid.SampledFrom([]string{"V300/0.m4s", "V300/1.m4s", "A48/1.m4s", "V300/2.m4s", "A48/0.m4s", "Manifest.mpd"}).Draw(t, "youngfile")
 		}
 	}
 	now := strconv.Itoa(fixedNow)
